@@ -796,3 +796,46 @@ Proof.
   - destruct (assoc l solo) as [t|]; [|discriminate]. apply btrace_eqb_eq in H4. now subst.
   - now apply batcher_sane_sound.
 Qed.
+
+(* ====================================================================================== *)
+(* one options-form decorator object applied to two functions (CBuffer2 / CBatcher2)        *)
+(* ====================================================================================== *)
+
+Lemma buffer2_complete : forall (t : option N) (sc : list bufev2),
+  buf_wf (bproj 0 sc) = true -> buf_wf (bproj 1 sc) = true ->
+  let m0 := buf_trace t (bproj 0 sc) in let m1 := buf_trace t (bproj 1 sc) in
+  ok (CBuffer2 t sc m0 m0 m1 m1) = true.
+Proof.
+  intros t sc H0 H1 m0 m1. cbn [ok]. rewrite !flushes_eqb_refl. cbn [andb].
+  unfold m0, m1, buf_trace. rewrite !buffer_ok_ref; [reflexivity|assumption|assumption].
+Qed.
+
+Lemma batcher2_complete : forall (cfg : ocfg) (sc : list bev2),
+  let m0 := trace_of (brun (resolve cfg) (cproj 0 sc)) in
+  let m1 := trace_of (brun (resolve cfg) (cproj 1 sc)) in
+  ok (CBatcher2 cfg sc m0 m0 m1 m1) = true.
+Proof.
+  intros cfg sc m0 m1. cbn [ok]. rewrite !btrace_eqb_refl. cbn [andb].
+  unfold m0, m1. now rewrite !batcher_sane_ref.
+Qed.
+
+(* soundness: per function, the options form behaved like the direct wrapping and like a buffer /
+   batcher of its own (sane with respect to THAT function's submissions / keys only) *)
+Lemma reuse_sound :
+  (forall t sc d0 e0 d1 e1, ok (CBuffer2 t sc d0 e0 d1 e1) = true ->
+     same_flushes d0 e0 /\ same_flushes d1 e1 /\
+     ok (CBuffer t (bproj 0 sc) e0 e0 e0) = true /\ ok (CBuffer t (bproj 1 sc) e1 e1 e1) = true) /\
+  (forall cfg sc d0 e0 d1 e1, ok (CBatcher2 cfg sc d0 e0 d1 e1) = true ->
+     d0 = e0 /\ d1 = e1 /\
+     ok (CBatcher cfg (cproj 0 sc) e0 e0 e0 0) = true /\ ok (CBatcher cfg (cproj 1 sc) e1 e1 e1 0) = true).
+Proof.
+  split.
+  - intros t sc d0 e0 d1 e1 H. cbn [ok] in *.
+    apply andb_prop in H as [H H4]. apply andb_prop in H as [H H3]. apply andb_prop in H as [H1 H2].
+    split; [now apply flushes_eqb_same|]. split; [now apply flushes_eqb_same|].
+    rewrite !flushes_eqb_refl. cbn [andb]. now split.
+  - intros cfg sc d0 e0 d1 e1 H. cbn [ok] in *.
+    apply andb_prop in H as [H H4]. apply andb_prop in H as [H H3]. apply andb_prop in H as [H1 H2].
+    apply btrace_eqb_eq in H1, H2. split; [assumption|]. split; [assumption|].
+    rewrite !btrace_eqb_refl. cbn [andb Nat.eqb]. now split.
+Qed.
